@@ -23,15 +23,17 @@ TNext == l <= Len(Trace) /\ l' = l + 1
 TSpec == TInit /\ [][TNext]_l
 
 Step == Trace[l - 1]
-Cmp(S, a) == CASE a.a = "prefix_objects_names" -> ProjNoMemberNames(S)
-               [] a.a = "replace_reference"    -> ProjNoMappingTargets(S)
-               [] OTHER -> S
+\* what the comparison leaves out is recorded with the step (a chain inherits it from every transformation in it)
+NoMembers(r)  == IF "nomembers" \in DOMAIN r THEN r.nomembers ELSE r.act.a = "prefix_objects_names"
+NoMappings(r) == IF "nomappings" \in DOMAIN r THEN r.nomappings ELSE r.act.a = "replace_reference"
+CmpR(S, r) == LET S1 == IF NoMembers(r) THEN ProjNoMemberNames(S) ELSE S
+              IN IF NoMappings(r) THEN ProjNoMappingTargets(S1) ELSE S1
 
 Expected(r) == Apply(r.pre, r.act)
 ConformsR(r) == IF ~Defined(r.pre, r.act) THEN TRUE
                 ELSE LET e == Expected(r) IN
                        /\ e.err = r.err
-                       /\ (~e.err => Cmp(r.post, r.act) = Cmp(e.S, r.act))
+                       /\ (~e.err => CmpR(r.post, r) = CmpR(e.S, r))
 RefsStayR(r) == (NameChanging(r.act) /\ Defined(r.pre, r.act) /\ ~r.err /\ AllRefsResolve(r.pre)) => AllRefsResolve(r.post)
 FilterExactR(r) == (r.act.a = "allowed_objects" /\ ~r.err) =>
                       {<<o.selfpkg, o.name>> : o \in AllObjects(r.post)} = {<<o.selfpkg, o.name>> : o \in AllObjects(Expected(r).S)}
